@@ -180,7 +180,7 @@ def gen_cases(tier, seed):
     return cases
 
 
-BAD_NUM = ["abc", "1.2.3", "--", "1,5", "0x10", "3..", "1e", "five"]
+BAD_NUM = ["abc", "1.2.3", "--", "1,5", "0x10", "3..", "1e", "five", "nan", "NaN", "inf", "-inf", "1e999"]      # (a weight that is "not a number" or not finite is no numeric weight)
 
 
 def run_case(case):
